@@ -22,7 +22,9 @@ if [ $MODE = seeds ] || [ $MODE = all ]; then
   for d in /verif/seeded/*/; do n=$(basename $d); echo $n | grep -Eq "$FILTER" || continue
     [ $n = C14-B ] && continue
     mkcopy seed-$n $d/patch.diff || continue
-    echo "seed-$n ${n%%-*} alarm" >> $jobs
+    # detected_under: the seed breaks a different property than the one its author was given
+    sp=${n%%-*}; [ -f $d/detected_under ] && sp=$(cat $d/detected_under)
+    echo "seed-$n $sp alarm" >> $jobs
   done
 fi
 if [ $MODE = combos ] || [ $MODE = all ]; then
